@@ -464,6 +464,14 @@ generate (uint64_t seed, int tier, const char *property, scenario_t *sc)
 	m[2] = rng_range (&r, -60 * 65536, 60 * 65536); m[5] = rng_range (&r, -60 * 65536, 60 * 65536);
 	m[6] = rng_range (&r, -300, 300); m[7] = rng_range (&r, -300, 300);
 	m[8] = rng_chance (&r, 1, 3) ? 65536 : rng_chance (&r, 1, 2) ? 3 * 65536 : rng_range (&r, 50000, 3 * 65536);
+	/* sparse bottom rows: (0,0,w), (0,p,1), (p,0,1) are projective too */
+	switch (rng_n (&r, 6))
+	{
+	case 0: m[6] = m[7] = 0; if (m[8] == 65536) m[8] = rng_chance (&r, 1, 2) ? 2 * 65536 : 32768 + rng_range (&r, 0, 65536); break;
+	case 1: m[6] = 0; m[8] = 65536; if (!m[7]) m[7] = 77; break;
+	case 2: m[7] = 0; m[8] = 65536; if (!m[6]) m[6] = -91; break;
+	default: break;
+	}
 	break;
     }
     if (tclass) sc_add (sc, S_TRANSFORM, 9, m[0], m[1], m[2], m[3], m[4], m[5], m[6], m[7], m[8]);
